@@ -126,8 +126,7 @@ Proof.
     cbn [fst set_core put_dedup set_dedup set_msgs msgs].
     eexists. split; [apply dget_aset_same|split; reflexivity].
   - destruct (e_kind e =? 2).
-    + unfold leave_here. destruct (existsb _ _); [discriminate|]. destruct (is_admin c && _); [discriminate|].
-      destruct (is_admin c); discriminate.
+    + unfold leave_here. destruct (existsb _ _); [discriminate|]. destruct (is_admin c && _); discriminate.
     + unfold commit_here. destruct (negb (forallb _ (e_refs e))); [discriminate|].
       destruct (negb (e_auth e) || (e_bad e =? 8)); [destruct (negb (e_auth e)); discriminate|]. rewrite apply_commit_rk. discriminate.
 Qed.
